@@ -750,6 +750,36 @@ pub fn gen_thread_scn(verif_seed: u64, idx: u64, small: bool) -> ThreadScn {
     let width = script.cfg.ptype.width();
     let hot = script.cfg.universe.clone();
     let mut g = Gen { rng: &mut rng, cfg: script.cfg.clone(), width, next_v: 1 << 32, hot, uar: false };
+    if idx % 8 == 5 {
+        // counter-zero window: all values of the map live in one worker's view, which cycles
+        // remove()+set() (the shared entry counter is 0 in between); the other worker navigates
+        // through value-less leftover nodes and writes where it arrives
+        let w = width;
+        let top = |bits: u128, len: u8| Raw { addr: bits << (128 - len as u32), len };
+        let a_root = top(0, 2);
+        let a_child = if w > 4 { Key { bits: a_root.addr, len: 2 }.child(g.rng.chance(1, 2)).child(g.rng.chance(1, 2)).raw() } else { a_root };
+        let b_root = top(1, 1);
+        let mut v = 1u64 << 34;
+        let mut steps = vec![];
+        for k in [a_root, a_child, b_root] {
+            steps.push(Step::Insert { m: 0, k, v });
+            v += 1;
+        }
+        steps.push(Step::RemoveKeepTree { m: 0, k: a_child });
+        steps.push(Step::RemoveKeepTree { m: 0, k: a_root });
+        script.steps = steps;
+        let cuts = vec![MAct::Split(0)];
+        let rounds = if small { 30 } else { 80 };
+        let mut wa = vec![];
+        for _ in 0..g.rng.range(2, 5) {
+            wa.push(MAct::Find(0, a_child));
+            wa.push(MAct::Set(0, g.v()));
+            wa.push(MAct::Peek(0));
+        }
+        let wb = vec![MAct::Churn { i: 0, rounds, v0: g.vblock() }];
+        // split() yields (left, right): left = the value-less side, right = the valued side
+        return ThreadScn { verif_seed, idx, script, cuts, workers: vec![wa, wb] };
+    }
     if idx % 4 == 3 {
         // counter stress: two (or four) valued sub-trie roots, every worker cycles remove()+set()
         // on its own root entry, so that updates of the shared entry counter interleave
@@ -807,4 +837,51 @@ pub fn gen_thread_scn(verif_seed: u64, idx: u64, small: bool) -> ThreadScn {
         workers.push(acts);
     }
     ThreadScn { verif_seed, idx, script, cuts, workers }
+}
+
+/// Scripts for the aliasing checker (Miri): two maps over one universe, then mutable sessions made
+/// of `*_mut` set operations against the other map (all four operations, various view roots),
+/// with every yielded reference held and written.
+pub fn gen_setop_mut_script(verif_seed: u64, idx: u64) -> Script {
+    let params = GenParams { property: "C13".into(), tier_thorough: false, profile: "miri".into() };
+    let mut script = generate(verif_seed, &params, idx);
+    script.cfg.n_maps = 2;
+    script.cfg.n_sets = if idx % 3 == 0 { 1 } else { 0 };
+    script.cfg.faults = false;
+    let mut rng = Rng::new(crate::rng::mix64(script.seed ^ 0x5e70));
+    let width = script.cfg.ptype.width();
+    let hot = script.cfg.universe.clone();
+    let mut g = Gen { rng: &mut rng, cfg: script.cfg.clone(), width, next_v: 1 << 36, hot, uar: false };
+    let mut steps = vec![];
+    for m in 0..2u8 {
+        for _ in 0..g.rng.range(6, 16) {
+            steps.push(Step::Insert { m, k: g.k(), v: g.v() });
+        }
+        for _ in 0..g.rng.range(0, 3) {
+            steps.push(Step::RemoveKeepTree { m, k: g.k() });
+        }
+    }
+    if script.cfg.n_sets > 0 {
+        for _ in 0..g.rng.range(3, 8) {
+            steps.push(Step::SInsert { s: 0, k: g.k() });
+        }
+    }
+    for round in 0..2u8 {
+        let mut acts = vec![];
+        for _ in 0..g.rng.range(4, 9) {
+            let i = g.rng.next() as u32;
+            match g.rng.below(10) {
+                0 => acts.push(MAct::Split(i)),
+                1 => acts.push(MAct::Find(i, g.q())),
+                2 => acts.push(MAct::SetOpSame { i, j: g.rng.next() as u32, op: g.rng.below(4) as u8, order: g.rng.next(), v0: g.vblock() }),
+                _ => {
+                    let other = if g.cfg.n_sets > 0 && g.rng.chance(1, 4) { Opnd::S(0) } else { Opnd::M(1 - round) };
+                    acts.push(MAct::SetOpOther { i, other, nav: g.nav(), op: g.rng.below(4) as u8, order: g.rng.next(), v0: g.vblock() })
+                }
+            }
+        }
+        steps.push(Step::MutSession { m: round, acts });
+    }
+    script.steps = steps;
+    script
 }
